@@ -299,6 +299,7 @@ func checkC02(c *Ctx) {
 			c.Sample(obj{"list": j.t.Name, "chunks": j.decs, "blank_separated": j.blank, "edits": histString(j.h)})
 		}
 	})
+	c02HandBuilt(c, hists)
 	c.Set("list_kinds", len(listTemplates))
 	c.Set("rule", "case = one commented sibling-list layout (13 list kinds, lead/trailing/hanging comments per chunk, uniform separators) x one TLC-generated edit history executed on the real slices (Clone for duplicates) and printed; non-trivial = the layout has comments; distinct by kind + layout + history")
 }
